@@ -31,7 +31,7 @@ def main(tier, replay, t0):
                 if g.get("result") != "ok":
                     continue
                 mv = x["opt"].get("mv", "rust")
-                base = {"wgsl": c.wgsl, "options": x["opt"]}
+                base = {"case_id": c.id, "wgsl": c.wgsl, "options": x["opt"]}
                 inv = {s["name"]: s for s in g.get("inv", {}).get("structs", [])}
                 # order and names from the item inventory (works even if the module is rejected)
                 for s in spec.emitted_structs():
